@@ -117,7 +117,7 @@ Qed.
 
 (* ------------------------------------------------------------------ the loop thread's own next step *)
 Definition rlabel (r : rpc) : lbl :=
-  match r with RAcq => AAcq | RTest => ARTest | RWrite => ARWrite | RHd => ARHd | RGet => ARGet
+  match r with RAcq => AAcq | RTest => ARdTl | RWrite => ARWrite | RHd => ARHd | RGet => ARGet
              | RSig => ASig | RRel => ARel end.
 
 (* what the loop thread does next when left alone (it fires generate_events, runs no plain handler,
@@ -138,14 +138,14 @@ Definition lnext (s : state) : lbl :=
   | LGRel => ARel
   | LH => ASetHd HWake
   | WAcq => AAcq
-  | WTest => AWTest
+  | WTest => ARdTl
   | WClear => AClear
   | WRel => ARel
-  | WTestPos => AWTestPos
-  | WRdTl => AWRdTl
+  | WTestPos => ARdTl
+  | WRdTl => ARdTl
   | WWaitT _ | WWaitU => AWait (flag s)
-  | WTestNeg => AWTestNeg
-  | PRead => APRead
+  | WTestNeg => ARdTl
+  | PRead => ARdTl
   | PSel _ => ASelect (0 <? pipe s)
   | PDrain => APipeRd
   | LClr => AClr
